@@ -313,6 +313,49 @@ def canon_struct(f, mod, name):
     return lines
 
 
+def overlap_lists(text):
+    """the name lists handed to `assert_no_intersection` in a piece of generated code (in order), or None"""
+    t = retok(text)
+    m = re.search(r"assert_no_intersection (?::: < [^<>]* > )?\( (.*)$", t)
+    if not m:
+        return None
+    rest, depth, arg = m.group(1).split(" "), 1, []
+    for tok in rest:
+        if tok in ("(", "[", "{"):
+            depth += 1
+        elif tok in (")", "]", "}"):
+            depth -= 1
+            if depth == 0:
+                break
+        arg.append(tok)
+    arg = " ".join(arg).strip().rstrip(",").strip()
+    if re.fullmatch(r"\w+", arg):
+        m2 = re.search(r"let %s : [^=]* = \[ (.*?) \] ;" % re.escape(arg), t)
+        if not m2:
+            return None
+        inner = m2.group(1)
+    elif arg.startswith("[ ") and arg.endswith(" ]"):
+        inner = arg[2:-2]
+    else:
+        return None
+    return [untok(x.strip().lstrip("&").strip()) for x in split_depth(inner, ",") if x.strip()]
+
+
+def wrapper_arms(body, name):
+    """arms of the `match self` of a contract-level dispatch: {Variant: arm expression}; the enum may be named or `Self`,
+    the bound message may have any name"""
+    t = retok(body)
+    m = re.search(r"match self \{ (.*) \} \}$", t)
+    if not m:
+        return {}
+    out = {}
+    for arm in split_depth(m.group(1), ","):
+        am = re.match(r"\s*(?:%s|Self) :: (\w+) \( \w+ \) => (.*)$" % re.escape(name), arm.strip(), flags=re.S)
+        if am:
+            out[am.group(1)] = am.group(2)
+    return out
+
+
 def canon_wrapper(f, mod, name, ep):
     path = "%s::%s" % (mod, name)
     if f.one(path + "|enum") is None:
@@ -330,23 +373,27 @@ def canon_wrapper(f, mod, name, ep):
     lines = ["wrapper %s variants=%s" % (name, ",".join(vs))]
     impl_path, _, _ = impl_with_fn(f, mod, name, "dispatch")
     tables, bridged = [], []
+    body = f.one(impl_path + "::dispatch|body", "") if impl_path else ""
+    # the overlap assertion: inside dispatch (a `const _` block) or as a `const _` item of the module; the one of this
+    # wrapper is the one whose last list is the contract's own table of this entry point
+    cands = [overlap_lists(body)] + [overlap_lists(v) for k, v in f.kv if k == "%s::_|const" % mod]
+    cands = [c for c in cands if c]
+    own = [c for c in cands[:1] if body and overlap_lists(body)] or \
+          [c for c in cands if re.fullmatch(r"%s_messages \(\)" % ep, c[-1])]
+    if own:
+        for part in own[0]:
+            mm = re.fullmatch(r"(?:(.*) :: sv :: )?(\w+)_messages \(\)", part)
+            if mm:
+                modp = nows(mm.group(1)) if mm.group(1) else "self"
+                tables.append(modp if mm.group(2) == ep else "%s!%s" % (modp, mm.group(2)))
+            else:
+                tables.append("?" + part)
+    else:
+        tables.append("<no const block>")
     if impl_path:
-        body = f.one(impl_path + "::dispatch|body", "")
-        m = re.search(r"let msgs : \[& \[& str\] ; \d+usize\] = \[(.*?)\] ; sylvia :: utils :: assert_no_intersection \(msgs\)", body)
-        if m:
-            for part in m.group(1).split(" , "):
-                part = part.strip().lstrip("&").strip()
-                mm = re.fullmatch(r"(?:(.*) :: sv :: )?(\w+)_messages \(\)", part)
-                if mm:
-                    modp = nows(mm.group(1)) if mm.group(1) else "self"
-                    tables.append(modp if mm.group(2) == ep else "%s!%s" % (modp, mm.group(2)))
-                else:
-                    tables.append("?" + part)
-        else:
-            tables.append("<no const block>")
+        arms = wrapper_arms(body, name)
         for v in variants[:-1]:
-            am = re.search(r"%s :: %s \(msg\) => (.*?)(?= , %s :: |$)" % (name, v, name), body)
-            arm = am.group(1) if am else ""
+            arm = arms.get(v, "")
             bridged.append("%s:%d:%d" % (v, 1 if "into_response" in arm else 0, 1 if "into_empty" in arm else 0))
     lines.append("wrapper %s tables=%s" % (name, ",".join(tables)))
     lines.append("wrapper %s bridged=%s" % (name, ",".join(bridged)))
@@ -370,8 +417,16 @@ def canon_wrapper(f, mod, name, ep):
             lines.append("wrapper %s schema=%s:%s" % (name, kind, ",".join(part_of(x) for x in parts)))
         if "QueryResponses" in v:
             body = f.one(mm.group(1) + "::response_schemas_impl|body", "")
-            parts = re.findall(r"(< [^\[\]]+? > :: \w+) :: response_schemas_impl \(\)", body)
-            how = "flatten" if re.search(r"responses \. into_iter \(\) \. flatten \(\) \. collect \(\) \}$", body) else "other"
+            # (the associated function may be named through the trait: `< <C as Api> :: Query as QueryResponses > :: ..`)
+            b2 = re.sub(r"< (< [^\[\]]+? > :: \w+) as (?:\w+ :: )*QueryResponses > :: response_schemas_impl", r"\1 :: response_schemas_impl", body)
+            parts = re.findall(r"(< [^\[\]]+? > :: \w+) :: response_schemas_impl \(\)", b2)
+            # the maps of the parts, in order, poured into one map: an array flattened, or one chained sequence
+            if re.search(r"responses \. into_iter \(\) \. flatten \(\) \. collect \(\) \}$", b2):
+                how = "flatten"
+            elif re.search(r"^\{ (?:\w+ :: )*empty (?::: < [^{}]* > )?\(\)(?: \. chain \(.*?\))+ \. collect \(\) \}$", b2):
+                how = "flatten"
+            else:
+                how = "other"
             lines.append("wrapper %s responses=%s:%s" % (name, how, ",".join(part_of(x) for x in parts)))
     return lines
 
